@@ -44,15 +44,15 @@ PROPS = {
  },
  "C07": {
   "props_modules": ["Ps3.Props.C07"],
-  "streams": [{"name": "viso", "bad_obs": r"valid=(?!ok)|tree=(?!ok)|PANIC|wf=0"}],
-  "rule": "generated trees (nested dirs, boundary file sizes, empty files, dirs with 30-90 entries, 255-byte/non-ASCII/colliding names, symlinks; thorough: sparse files of 4 GiB-2 KiB .. 9 GiB) x both modes; "
+  "streams": [{"name": "viso", "bad_obs": r"valid=(?!ok)|tree=(?!ok)|PANIC|wf=0|NEGATIVE-SIZE"}],
+  "rule": "generated trees (nested dirs, boundary file sizes, empty files, dirs with 30-90 entries, 255-byte/non-ASCII/colliding names, symlinks; sparse files of 4 GiB-2 KiB .. 9 GiB; trees around the 2^31-1-sector limit of the format: one sparse file of 4 TiB minus 100..200 sectors on either side of the limit, 4/5/8 TiB files, two 2.5 TiB files whose sum wraps int32, which must be refused at open or be a correct image up to the last sector) x both modes; "
           "the image is read through the library view and (a) compared byte-exactly (masked) with the Lean model's image, (b) decoded by an independent ISO 9660/Joliet reader and compared with the generated tree in both hierarchies incl. file bytes at structural offsets",
   "assumptions": ["file content 'Content' (pattern + overlays) tied to the real files by the differential", "TZ=UTC for recording timestamps",
-                  "theorems about a built image are stated for images satisfying WF; WF is evaluated (wfB, proved sound) on the model's image of every explored tree - a proof that build always yields WF is not yet done"],
+                  "the theorems hold for every image `build` returns (build_wf: every built image is well-formed); WF is additionally evaluated (wfB, proved sound) on the model's image of every explored tree"],
  },
  "C08": {
   "props_modules": ["Ps3.Props.C08", "Ps3.Props.C08b", "Ps3.Props.C08c"],
-  "streams": [{"name": "viso", "bad_obs": r"valid=(?!ok)|tree=(?!ok)|PANIC|wf=0"}],
+  "streams": [{"name": "viso", "bad_obs": r"valid=(?!ok)|tree=(?!ok)|PANIC|wf=0|NEGATIVE-SIZE"}],
   "rule": "same runs as C07; the implementation's image is checked by a strict validator written from ECMA-119/Joliet (sizes, descriptors, both-endian fields, record lengths, no straddling, ./.. and child links, L/M path tables, extents inside and disjoint, zero padding); well-formed PARAM.SFO files with any key order/entry count for PS3 mode",
   "assumptions": ["validator anchored on the third-party image internal/testutil/testdata/testimg.iso", "duplicate identifiers after mapping are not flagged (not demanded by the property)"],
  },
